@@ -7,7 +7,7 @@ import sergen as sg
 
 PID = "C03"
 HEADER = "From ZV Require Import Common.Exec Ser.SerdeModel Ser.SerdeExec.\nOpen Scope N_scope.\n"
-MAXV = 6            # replay files written per class of disagreement
+MAXV = 3            # replay files written per class of disagreement
 
 
 def hx(s):
@@ -85,18 +85,57 @@ def gen_cases(ck):
     for i, v in enumerate(fixed_trees()):
         add(v, "fixed", send="all" if i % 23 == 0 else "auto", cont=[None, True, False][i % 3])
     # random trees of serializer calls, acceptable keys only
-    for i in range(3200 if quick else 40000):
+    for i in range(6000 if quick else 60000):
         v = g.tree(rng.choice([1, 2, 2, 3, 3, 4]), 0.0, rng.choice([2, 3, 4, 6]))
         if sg.size(v) > 60:
             continue
         add(v, "tree", send="all" if i % 400 == 0 else "auto", cont=rng.choice([None, None, True, False]),
             extra={"pad": rng.randrange(0, 600)})
+    # stratified sample of Unicode scalars through the model: as char, as 1-char string, inside a
+    # longer string, as map key and as field name
+    edges = [0, 0x20, 0x7F, 0x80, 0x7FF, 0x800, 0xD7FF, 0xE000, 0xFFFF, 0x10000, 0x10FFFF]
+    for i in range(160 if quick else 2500):
+        cps = []
+        for _ in range(48):
+            x = rng.random()
+            if x < 0.2:
+                c = rng.choice(edges) + rng.choice([-2, -1, 0, 1, 2])
+            elif x < 0.4:
+                c = rng.randrange(0, 0x80)
+            elif x < 0.6:
+                c = rng.randrange(0x80, 0x800)
+            elif x < 0.8:
+                c = rng.randrange(0x800, 0x10000)
+            else:
+                c = rng.randrange(0x10000, 0x110000)
+            if 0 <= c < 0x110000 and not 0xD800 <= c < 0xE000:
+                cps.append(c)
+        shape = i % 4
+        if shape == 0:
+            v = ["seq", len(cps), [["c", c] for c in cps]]
+        elif shape == 1:
+            v = ["tup", len(cps), [["s", hx(chr(c))] for c in cps]]
+        elif shape == 2:
+            v = ["map", None, [[["c", c] if j % 2 else ["s", hx("k" + chr(c))], ["s", hx(chr(c) + "." + chr(c))]]
+                               for j, c in enumerate(cps)]]
+        else:
+            v = ["st", hx("S"), len(cps), [[hx(chr(c) + "f"), ["uv", hx("E"), 0, hx(chr(c))]] for c in cps]]
+        g.stats["scalars_through_model"] = g.stats.get("scalars_through_model", 0) + len(cps)
+        add(v, "scalars", sweep="boundary", send="auto" if i % 8 == 0 else None)
     # the malformed stream: trees with unacceptable keys somewhere
-    for i in range(900 if quick else 12000):
-        v = g.tree(rng.choice([1, 2, 3, 3]), rng.choice([0.15, 0.4, 1.0]), rng.choice([2, 3, 4]))
+    for i in range(1500 if quick else 15000):
+        v = g.tree(rng.choice([0, 1, 2, 3, 3]), rng.choice([0.0, 0.15, 0.4]), rng.choice([2, 3, 4]))
+        v = sg.inject_bad_key(g, v)
         if sg.size(v) > 60:
             continue
         add(v, "badkey_tree", cont=rng.choice([None, True]))
+    if not quick:
+        for i in range(250000):
+            v = g.tree(rng.choice([2, 3, 3, 4, 5]), rng.choice([0.0, 0.0, 0.1]), rng.choice([2, 3, 4, 6]))
+            if sg.size(v) > 150:
+                continue
+            add(v, "tree_rust_only", sweep="boundary", send="auto" if i % 4 == 0 else None,
+                cont=rng.choice([None, True]), extra={"nomodel": True})
     # large values: output sizes around multiples of the 256-byte growth step (and its hook limit)
     sizes = [256 * m + d for m in ((1, 2, 3) if quick else range(1, 13)) for d in (-12, -3, -2, -1, 0, 1, 2, 3)]
     for sz in sizes:
@@ -147,6 +186,21 @@ def job_cases(ck, first_id):
     return jobs
 
 
+def minimise(ck, case, still_fails):
+    """Smallest value-position subtree of a failing tree on which the two implementations still
+    disagree (one extra harness run over all subtrees); the original case if none does."""
+    subs = sorted(sg.subtrees(case["v"]), key=sg.size)[:400]
+    cands = [dict(case, id=i, v=t) for i, t in enumerate(subs)]
+    try:
+        res = ck.harness_run("ser", cands)
+    except Exception:
+        return case
+    for c, r in zip(cands, res):
+        if still_fails(r):
+            return dict(c, id=case["id"], minimised_from=case["v"])
+    return case
+
+
 def frames_summary(r):
     """(kind, frame_hex, problem): kind 0 = not run, 1 = one frame at every free space, 2 = refused"""
     fr = r.get("frames")
@@ -163,20 +217,52 @@ def frames_summary(r):
     return 0, "", "send path results: %s" % sorted(sts)
 
 
+def ranges(sweep):
+    """[(n, code)] -> [(lo, hi, code)] over maximal runs of consecutive n with the same code"""
+    out = []
+    for n, k in sweep:
+        if out and out[-1][2] == k and out[-1][1] + 1 == n:
+            out[-1][1] = n
+        else:
+            out.append([n, n, k])
+    return out
+
+
+def wrap_text(out_hex, cont):
+    t = b'{"parameters":' + bytes.fromhex(out_hex)
+    if cont is not None:
+        t += b',"continues":' + (b"true" if cont else b"false")
+    return (t + b"}").hex()
+
+
 def render_case(c, r):
     kind, frame, _ = frames_summary(r)
     cont = c.get("cont")
-    return ("{| sc_v := %s; sc_sweep := [%s]; sc_out := %s; sc_serde := %s; sc_send := %d; "
-            "sc_cont := %s; sc_frame := %s |}") % (
+    out, serde = r.get("out"), r.get("serde")
+    sk, sx = (0, "") if serde is None else ((1, "") if serde == out else (2, serde))
+    fx = ""
+    if kind == 1:
+        if out is not None and frame == wrap_text(out, cont):
+            kind = 1
+        else:
+            kind, fx = 3, frame
+    return ("{| sc_v := %s; sc_sweep := [%s]; sc_out := %s; sc_serde := %d; sc_serde_x := %s; "
+            "sc_send := %d; sc_cont := %s; sc_frame_x := %s |}") % (
         sg.coq_sval(c["v"], r.get("ftoks", {})),
-        "; ".join("(%d, %d)" % (n, k) for n, k in r["sweep"]),
-        sg.copt(r.get("out")), sg.copt(r.get("serde")), kind,
+        "; ".join("(%d, %d, %d)" % (lo, hi, k) for lo, hi, k in ranges(r["sweep"])),
+        sg.copt(out), sk, sg.cb(sx), kind,
         "None" if cont is None else "(Some %s)" % ("true" if cont else "false"),
-        sg.cb(frame))
+        sg.cb(fx))
 
 
 def main():
     ck = Check(PID)
+    phases, t_last = {}, [time.time()]
+
+    def phase(name):
+        now = time.time()
+        phases[name] = round(now - t_last[0], 1)
+        t_last[0] = now
     rc, out = sh([sys.executable, os.path.join(VERIF, "translate", "escape.py")])
     if rc != 0:
         ck.proof_ok, ck.broken, ck.proof_log = False, "translator escape.py: " + out.strip()[-400:], out
@@ -185,6 +271,7 @@ def main():
         ck.samples.append("translated: " + out.strip()[:400])
         ck.prove(["gen/Escape.v", "Ser/SerdeExec.v", "Ser/SerdeProofs.v"], "props/C03.v")
 
+    phase("translate+prove")
     if ck.replay:
         rp = json.load(open(ck.replay))
         cases = [rp["case"]] if "case" in rp else []
@@ -195,6 +282,7 @@ def main():
         cases, gen = gen_cases(ck)
         jobs = job_cases(ck, len(cases))
 
+    phase("generate")
     ok, log = ck.harness_build(["ser"])
     if not ok:
         ck.violation("harness does not build against /repo", {"log": log[-3000:]}, tag="build", no_input=True)
@@ -202,6 +290,7 @@ def main():
     results = ck.harness_run("ser", cases)
     jres = ck.harness_run("ser", jobs, timeout=3000, shards=16) if jobs else []
     ck.ran_correspondence = True
+    phase("harness")
 
     counts = {"panic": 0, "direct": 0, "send": 0, "spec": 0, "model": 0, "ref": 0, "job": 0}
 
@@ -227,15 +316,19 @@ def main():
 
     # ---- tree cases: direct differential first
     items = []
-    tokbad = 0
+    tokbad = rust_only = 0
+    hist_extra = {}
     for c, r in zip(cases, results):
         if r.get("panic") or r.get("crash"):
             viol("panic", "serializer/harness panicked or crashed on a value: %s" % r.get("msg", "")[:200],
                  {"case": c, "impl": r}, "panic%d" % c["id"])
             continue
         if not r["direct"]:
+            cm = c
+            if counts["direct"] < MAXV and not ck.replay:
+                cm = minimise(ck, c, lambda x: x.get("direct") is False or x.get("panic"))
             viol("direct", "to_slice output differs from serde_json::to_vec on the same value",
-                 {"case": c, "impl": r}, "d%d" % c["id"])
+                 {"case": cm, "impl": r if cm is c else None, "original_case": c}, "d%d" % c["id"])
         kind, frame, problem = frames_summary(r)
         if problem:
             viol("send", "send_reply: " + problem, {"case": c, "impl": r}, "f%d" % c["id"])
@@ -243,7 +336,11 @@ def main():
             viol("send", "frame written by send_reply differs from serde_json::to_vec(&Reply)",
                  {"case": c, "impl": r}, "f%d" % c["id"])
         tokbad += len(sg.float_roundtrips(r.get("ftoks", {})))
-        items.append((c, r))
+        if c.get("nomodel"):
+            rust_only += 1
+            hist_extra[c["tag"]] = hist_extra.get(c["tag"], 0) + 1
+        else:
+            items.append((c, r))
     if tokbad:
         ck.violation("a float token written by serde_json/ryu does not read back as the same float "
                      "(%d tokens); the model's assumption about ryu is broken" % tokbad, {}, tag="ryu", no_input=True)
@@ -280,6 +377,7 @@ def main():
             obj["correspondence"] = "Ser/SerdeModel.v ref_enc vs serde_json::to_vec"
             viol("ref", "serde_json differs from the reference encoder", obj, "r%d" % c["id"], no_input=True)
 
+    phase("coq_eval")
     # ---- coverage
     hashes, nontriv, hist = set(), set(), {}
     n_sweep = n_frames = n_badkey = n_refused = n_lying = 0
@@ -294,15 +392,16 @@ def main():
         n_badkey += 1 if sg.has_bad_key(c["v"]) else 0
         n_refused += 1 if r.get("top") == "key" else 0
     ck.cov.update({
-        "evaluations": len(items) + sum(v for k, v in swept.items() if ":" not in k),
+        "evaluations": len(items) + rust_only + sum(v for k, v in swept.items() if ":" not in k),
         "distinct_nontrivial": len(nontriv),
         "traces_validated_against_impl": evaluated,
         "tree_cases": len(items), "distinct_trees": len(hashes), "case_classes": hist,
+        "trees_compared_rust_vs_rust_only": hist_extra,
         "to_slice_runs_in_buffer_sweeps": n_sweep, "send_reply_frames": n_frames,
         "trees_with_unacceptable_key": n_badkey, "trees_refused_by_zlink": n_refused,
         "rust_vs_rust_sweeps": swept,
         "generator_distribution": dict(sorted(gen.stats.items())) if gen else {},
-        "disagreements": counts,
+        "disagreements": counts, "phase_seconds": phases,
     })
     for c, r in items[:2] + items[len(items) // 2: len(items) // 2 + 3]:
         ck.samples.append({"v": c["v"], "tag": c["tag"], "out": bytes.fromhex(r["out"]).decode("utf-8", "replace")[:120]
